@@ -960,6 +960,14 @@ func NewEnum(config EnumConfig) *Enum {
 	if gt.values, gt.err = gt.defineEnumValues(config.Values); gt.err != nil {
 		return gt
 	}
+	// The lookup tables are read by concurrently executing requests, so
+	// they are built here rather than on first use.
+	gt.valuesLookup = make(map[interface{}]*EnumValueDefinition, len(gt.values))
+	gt.nameLookup = make(map[string]*EnumValueDefinition, len(gt.values))
+	for _, value := range gt.values {
+		gt.valuesLookup[value.Value] = value
+		gt.nameLookup[value.Name] = value
+	}
 
 	return gt
 }
@@ -1051,26 +1059,10 @@ func (gt *Enum) Error() error {
 	return gt.err
 }
 func (gt *Enum) getValueLookup() map[interface{}]*EnumValueDefinition {
-	if len(gt.valuesLookup) > 0 {
-		return gt.valuesLookup
-	}
-	valuesLookup := map[interface{}]*EnumValueDefinition{}
-	for _, value := range gt.Values() {
-		valuesLookup[value.Value] = value
-	}
-	gt.valuesLookup = valuesLookup
 	return gt.valuesLookup
 }
 
 func (gt *Enum) getNameLookup() map[string]*EnumValueDefinition {
-	if len(gt.nameLookup) > 0 {
-		return gt.nameLookup
-	}
-	nameLookup := map[string]*EnumValueDefinition{}
-	for _, value := range gt.Values() {
-		nameLookup[value.Name] = value
-	}
-	gt.nameLookup = nameLookup
 	return gt.nameLookup
 }
 
